@@ -163,6 +163,9 @@ impl PropImpl for C19 {
          (29791 messages). Unsigned texts (first line not the marker, incl. empty text, padded marker, marker as second line) must pass through unchanged. Non-trivial: a message with >= 2 payload lines or a \
          blank / look-alike line. Distinct by message hash; inner_evaluations counts the (message, fault) pairs.".into()
     }
+    fn expected_labels(&self) -> Vec<&'static str> {
+        vec!["signed", "unsigned", "no-headers", "empty-payload", "payload:blank-line", "payload:marker-look-alike", "signature:blank-line", "empty-signature", "appended-lines", "appended-only-blank-lines"]
+    }
     fn budget(&self, tier: Tier) -> Budget {
         Budget { cases_per_lane: if tier == Tier::Quick { 10000 } else { 40_000 }, tape_max: 400, cpu_s: 10 }
     }
